@@ -65,6 +65,14 @@ type In struct {
 	// batches (merged segments are where scorch uses its 1-hit postings encoding); 0 = never
 	MergeAfter int `json:"merge_after,omitempty"`
 	Q          *QN `json:"q"`
+	// Cfg names a non-default scorch configuration (kvconfig of bleve.NewUsing), see scorchConfigs;
+	// "" = defaults.  Ignored by upsidedown.
+	Cfg string `json:"cfg,omitempty"`
+	// Also / Reps: further queries searched on the SAME index, and the number of rounds.  One
+	// round searches Q, Also[0], Also[1], ... one after the other, each under the 8 option
+	// combinations; nothing is written between the searches.  Reps <= 1 and no Also: Q once.
+	Also []*QN `json:"also,omitempty"`
+	Reps int   `json:"reps,omitempty"`
 	// Tags: what the generator aimed at (histogram buckets only, never read by exec's search part)
 	Tags []string `json:"tags,omitempty"`
 }
@@ -711,6 +719,59 @@ func (w *world) termTree(d int) *QN {
 	return q
 }
 
+// scorchConfigs: the non-default index configurations (scorch kvconfig).  fieldTFRCacheThreshold
+// switches on the per-snapshot cache of recycled term field readers (off by default); the int /
+// float64 forms are what a Go caller / a JSON-decoded config hand over.  The others are options
+// that must not change any answer: unsafe_batch (no wait for persistence), numSnapshotsToKeep,
+// persister / merge-plan tuning.
+var scorchConfigs = map[string]map[string]interface{}{
+	"tfr1":         {"fieldTFRCacheThreshold": 1},
+	"tfr10":        {"fieldTFRCacheThreshold": 10},
+	"tfr10f":       {"fieldTFRCacheThreshold": float64(10)},
+	"tfr1000":      {"fieldTFRCacheThreshold": 1000},
+	"unsafe":       {"unsafe_batch": true},
+	"tfr10+unsafe": {"fieldTFRCacheThreshold": 10, "unsafe_batch": true},
+	"keep3":        {"numSnapshotsToKeep": 3},
+	"tfr1000+nap": {"fieldTFRCacheThreshold": 1000,
+		"scorchPersisterOptions": map[string]interface{}{"PersisterNapTimeMSec": 1, "PersisterNapUnderNumFiles": 2}},
+	"tfr1+plan": {"fieldTFRCacheThreshold": 1,
+		"scorchMergePlanOptions": map[string]interface{}{"MaxSegmentsPerTier": 2, "SegmentsPerMergeTask": 2, "FloorSegmentSize": 1}},
+}
+
+var cfgNames = []string{"tfr1", "tfr10", "tfr1000", "tfr10f", "tfr10", "tfr1000", "tfr1", "unsafe", "tfr10+unsafe", "keep3", "tfr1000+nap", "tfr1+plan"}
+
+// pickCfg: half of the scorch cases of the general streams run on a non-default configuration
+func pickCfg(r *vrand.R, engine string) string {
+	if !strings.HasPrefix(engine, "scorch") || r.Bool() {
+		return ""
+	}
+	return vrand.Pick(r, cfgNames)
+}
+
+// pickTFRCfg: for the directed streams whose segment layout matters, only the reader cache varies
+func pickTFRCfg(r *vrand.R, engine string) string {
+	if !strings.HasPrefix(engine, "scorch") || r.Bool() {
+		return ""
+	}
+	return vrand.Pick(r, []string{"tfr1", "tfr10", "tfr1000", "tfr10f"})
+}
+
+// leafOn: a leaf query on text field f (term, match, prefix, wildcard, fuzzy, term range, regexp;
+// phrase kinds on the tokenised fields)
+func (w *world) leafOn(f string) *QN {
+	kinds := []string{"term", "term", "term", "match", "match", "prefix", "wildcard", "fuzzy", "termrange", "regexp"}
+	if f == "t" || f == "u" {
+		kinds = append(kinds, "matchphrase", "phrase", "multiphrase")
+	}
+	kind := vrand.Pick(w.r, kinds)
+	for try := 0; try < 16; try++ {
+		if q := w.leafOf(kind); q.F == f {
+			return q
+		}
+	}
+	return &QN{K: "term", F: f, T: w.termFor(f)}
+}
+
 func validate(q *QN) (ok bool) {
 	defer func() {
 		if recover() != nil {
@@ -728,7 +789,7 @@ var engines = []string{"scorch-mem", "scorch-disk", "upsidedown", "scorch-mem", 
 func gen(f vh.Flags, r *vrand.R, emit func(In)) {
 	thorough := f.Tier == "thorough"
 	// 1. random trees to depth 4 over random corpora
-	nCorpora := f.N(54, 2400)
+	nCorpora := f.N(50, 2400)
 	for ci := 0; ci < nCorpora; ci++ {
 		engine := engines[ci%len(engines)]
 		nDocs := r.Range(5, 12)
@@ -747,7 +808,7 @@ func gen(f vh.Flags, r *vrand.R, emit func(In)) {
 			if q.size() > 45 || !validate(q) {
 				continue
 			}
-			emit(In{Kind: "main", Engine: engine, Batches: batches, MergeAfter: w.mergeAfter(batches), Q: q})
+			emit(In{Kind: "main", Engine: engine, Batches: batches, MergeAfter: w.mergeAfter(batches), Q: q, Cfg: pickCfg(r, engine)})
 			emitted++
 		}
 	}
@@ -765,7 +826,7 @@ func gen(f vh.Flags, r *vrand.R, emit func(In)) {
 				q = &QN{K: "boolean", HasMustNot: true, MustNot: []*QN{q}}
 			}
 			if validate(q) {
-				emit(In{Kind: "leaf", Engine: engine, Batches: batches, MergeAfter: w.mergeAfter(batches), Q: q})
+				emit(In{Kind: "leaf", Engine: engine, Batches: batches, MergeAfter: w.mergeAfter(batches), Q: q, Cfg: pickCfg(r, engine)})
 			}
 		}
 	}
@@ -782,7 +843,7 @@ func gen(f vh.Flags, r *vrand.R, emit func(In)) {
 		batches := w.history()
 		q := w.termTree(r.Range(1, 2))
 		if validate(q) {
-			emit(In{Kind: "termtree", Engine: engine, Batches: batches, MergeAfter: w.mergeAfter(batches), Q: q})
+			emit(In{Kind: "termtree", Engine: engine, Batches: batches, MergeAfter: w.mergeAfter(batches), Q: q, Cfg: pickTFRCfg(r, engine)})
 		}
 	}
 	// 1d. terms with a single posting in a force-merged on-disk segment (scorch's 1-hit encoding)
@@ -813,7 +874,7 @@ func gen(f vh.Flags, r *vrand.R, emit func(In)) {
 			q = &QN{K: "boolean", HasMust: true, Must: ks[:1], HasMustNot: true, MustNot: ks[1:]}
 		}
 		if validate(q) {
-			emit(In{Kind: "onehit", Engine: "scorch-disk", Batches: batches, MergeAfter: len(batches), Q: q})
+			emit(In{Kind: "onehit", Engine: "scorch-disk", Batches: batches, MergeAfter: len(batches), Q: q, Cfg: pickTFRCfg(r, "scorch-disk")})
 		}
 	}
 	// 1e. a wide disjunction (more clauses than searcher.DisjunctionHeapTakeover) under a sparse clause
@@ -821,6 +882,7 @@ func gen(f vh.Flags, r *vrand.R, emit func(In)) {
 	for i := 0; i < nWD; i++ {
 		engine := []string{"scorch-mem", "upsidedown", "scorch-disk"}[i%3]
 		if in := genWide(r.Fork(), engine); validate(in.Q) {
+			in.Cfg = pickCfg(r, engine)
 			emit(in)
 		}
 	}
@@ -828,6 +890,47 @@ func gen(f vh.Flags, r *vrand.R, emit func(In)) {
 	nMA := f.N(40, 1000)
 	for i := 0; i < nMA; i++ {
 		if in := genMergeAppend(r.Fork()); validate(in.Q) {
+			in.Cfg = pickTFRCfg(r, "scorch-disk")
+			emit(in)
+		}
+	}
+	// 1g. read-only schedules: several queries touching the same field searched in rounds on one
+	// index, nothing written in between (reader recycling and other per-snapshot caches must not
+	// change an answer); scorch mostly with the term-field-reader cache switched on
+	nRP := f.N(36, 1500)
+	for i := 0; i < nRP; i++ {
+		engine := []string{"scorch-mem", "scorch-disk", "scorch-mem", "upsidedown", "scorch-mem", "scorch-disk"}[i%6]
+		w := newWorld(r.Fork(), engine, r.Range(5, 10))
+		batches := w.history()
+		cfg := ""
+		if engine != "upsidedown" {
+			cfg = []string{"tfr1", "tfr10", "tfr1000", "tfr10f", "", "tfr10+unsafe", "tfr1000", "tfr1"}[(i/2)%8]
+		}
+		field := vrand.Pick(w.r, []string{"k", "t", "t", "u", "w"})
+		mk := func() *QN {
+			switch w.r.Intn(6) {
+			case 0:
+				return &QN{K: "conj", Kids: []*QN{w.leafOn(field), w.leafOn(field)}}
+			case 1:
+				return &QN{K: "disj", Kids: []*QN{w.leafOn(field), w.leafOn(field), w.leaf()}, Min2: vrand.Pick(w.r, []int{0, 2, 4})}
+			case 2:
+				return &QN{K: "boolean", HasMust: true, Must: []*QN{w.leafOn(field)}, HasShould: true,
+					Should: []*QN{w.leafOn(field), w.leaf()}, Min2: vrand.Pick(w.r, []int{0, 0, 2})}
+			}
+			return w.leafOn(field)
+		}
+		in := In{Kind: "repeat", Engine: engine, Batches: batches, MergeAfter: w.mergeAfter(batches), Cfg: cfg, Reps: w.r.Range(2, 3)}
+		for try := 0; try < 20 && in.Q == nil; try++ {
+			if q := mk(); validate(q) {
+				in.Q = q
+			}
+		}
+		for try := 0; try < 20 && len(in.Also) < 1+i%2; try++ {
+			if q := mk(); validate(q) {
+				in.Also = append(in.Also, q)
+			}
+		}
+		if in.Q != nil {
 			emit(in)
 		}
 	}
@@ -1651,16 +1754,27 @@ func run(in In) vh.Result {
 		panic(err)
 	}
 	var idx bleve.Index
+	var kvconfig map[string]interface{}
+	if in.Cfg != "" {
+		base, ok := scorchConfigs[in.Cfg]
+		if !ok {
+			panic("unknown scorch configuration " + in.Cfg)
+		}
+		kvconfig = map[string]interface{}{} // bleve adds "path" etc. to the map it is given
+		for k, v := range base {
+			kvconfig[k] = v
+		}
+	}
 	switch in.Engine {
 	case "scorch-mem":
-		idx, err = bleve.NewUsing("", m, scorch.Name, scorch.Name, nil)
+		idx, err = bleve.NewUsing("", m, scorch.Name, scorch.Name, kvconfig)
 	case "scorch-disk":
 		dir, derr := os.MkdirTemp("/tmp", "vh_c02_")
 		if derr != nil {
 			panic(derr)
 		}
 		defer os.RemoveAll(dir)
-		idx, err = bleve.NewUsing(dir+"/idx", m, scorch.Name, scorch.Name, nil)
+		idx, err = bleve.NewUsing(dir+"/idx", m, scorch.Name, scorch.Name, kvconfig)
 	case "upsidedown":
 		idx, err = bleve.NewMemOnly(m)
 	default:
@@ -1702,31 +1816,42 @@ func run(in In) vh.Result {
 	sort.Ints(nums)
 	corpus := cf.ListOf(nums, func(n int) cf.T { return docCoq(n, live[n]) })
 
-	var obs []cf.T
+	// the schedule: Reps rounds over Q, Also[0], Also[1], ...; every search under the 8 option
+	// combinations; no write between any two searches
+	queries := append([]*QN{in.Q}, in.Also...)
+	reps := in.Reps
+	if reps < 1 {
+		reps = 1
+	}
+	obs := make([][]cf.T, len(queries))
 	first := -1
-	for _, score := range []string{"", "none"} {
-		for _, loc := range []bool{false, true} {
-			for _, expl := range []bool{false, true} {
-				req := bleve.NewSearchRequestOptions(in.Q.build(), 100, 0, expl)
-				req.Score = score
-				req.IncludeLocations = loc
-				sr, err := idx.Search(req)
-				if err != nil {
-					return vh.Result{Direct: &vh.Direct{Kind: "error", Detail: fmt.Sprintf("Search(score=%q loc=%v explain=%v): %v", score, loc, expl, err)}}
-				}
-				var hits []int
-				for _, h := range sr.Hits {
-					n, perr := strconv.Atoi(strings.TrimPrefix(h.ID, "d"))
-					if perr != nil {
-						panic("unexpected hit id " + h.ID)
+	for rep := 0; rep < reps; rep++ {
+		for qi, qn := range queries {
+			for _, score := range []string{"", "none"} {
+				for _, loc := range []bool{false, true} {
+					for _, expl := range []bool{false, true} {
+						req := bleve.NewSearchRequestOptions(qn.build(), 100, 0, expl)
+						req.Score = score
+						req.IncludeLocations = loc
+						sr, err := idx.Search(req)
+						if err != nil {
+							return vh.Result{Direct: &vh.Direct{Kind: "error", Detail: fmt.Sprintf("Search(round=%d query=%d score=%q loc=%v explain=%v): %v", rep, qi, score, loc, expl, err)}}
+						}
+						var hits []int
+						for _, h := range sr.Hits {
+							n, perr := strconv.Atoi(strings.TrimPrefix(h.ID, "d"))
+							if perr != nil {
+								panic("unexpected hit id " + h.ID)
+							}
+							hits = append(hits, n)
+						}
+						sort.Ints(hits)
+						if first < 0 {
+							first = len(hits)
+						}
+						obs[qi] = append(obs[qi], cf.Pair(cf.ListOf(hits, cf.Int), cf.U(sr.Total)))
 					}
-					hits = append(hits, n)
 				}
-				sort.Ints(hits)
-				if first < 0 {
-					first = len(hits)
-				}
-				obs = append(obs, cf.Pair(cf.ListOf(hits, cf.Int), cf.U(sr.Total)))
 			}
 		}
 	}
@@ -1758,6 +1883,16 @@ func run(in In) vh.Result {
 		segs += "(force-merged)"
 	}
 	hist := []string{"kind:" + in.Kind, "engine:" + in.Engine, "root:" + in.Q.K, fmt.Sprintf("depth:%d", in.Q.depth())}
+	if strings.HasPrefix(in.Engine, "scorch") {
+		if in.Cfg == "" {
+			hist = append(hist, "cfg:default")
+		} else {
+			hist = append(hist, "cfg:"+in.Cfg)
+		}
+	}
+	if len(queries) > 1 || reps > 1 {
+		hist = append(hist, fmt.Sprintf("schedule:%d-queries-x-%d-rounds", len(queries), reps))
+	}
 	hist = append(hist, in.Tags...)
 	if segs != "" {
 		hist = append(hist, segs)
@@ -1778,8 +1913,16 @@ func run(in In) vh.Result {
 		}
 		return false
 	})
+	term := cf.App("Case", tr, corpus, in.Q.coq(), cf.List(obs[0]))
+	if len(queries) > 1 || reps > 1 {
+		var qs []cf.T
+		for qi, qn := range queries {
+			qs = append(qs, cf.Pair(qn.coq(), cf.List(obs[qi])))
+		}
+		term = cf.App("CaseMulti", tr, corpus, cf.List(qs))
+	}
 	return vh.Result{
-		Term:       cf.App("Case", tr, corpus, in.Q.coq(), cf.List(obs)),
+		Term:       term,
 		Nontrivial: first > 0 && first < len(nums),
 		Class:      class,
 		Hist:       hist,
@@ -1806,6 +1949,8 @@ func main() {
 		ExplainFn: "SemCorr.explain",
 		Rule: "random indexing histories (5-40 documents over a 6-10 word vocabulary; keyword and whitespace+lowercase text fields, " +
 			"array values, numeric/date/bool fields; batches with updates and deletes) on scorch in-memory, scorch on-disk and upsidedown; " +
+			"half of the scorch cases on a non-default index configuration (kvconfig fieldTFRCacheThreshold 1 / 10 / 1000 as int or float64 = the term-field-reader recycle cache, unsafe_batch, numSnapshotsToKeep, persister nap and merge-plan options); " +
+			"read-only schedules (2-3 queries touching one field, searched in 2-3 rounds on the same index with no write in between, every search under the 8 option combinations, each answer judged by sem); " +
 			"random query trees to depth 4 over the whole family that pass Validate(); single leaves of every kind; term-only compounds and " +
 			"single-posting terms in force-merged on-disk segments; directed stream 'wide disjunction under a sparse clause' (11-14 terms sharing a " +
 			"prefix spread over 14-24 documents in several segments, reached by prefix/wildcard/regexp/term-range/fuzzy/match-OR or an explicit " +
